@@ -9,12 +9,14 @@ LEAN_PROPS = "Litep2pVerif.Props.C16"
 THEOREMS = ["terminal_once", "terminal_accounted", "waiting_owned", "occupied_unreachable",
             "terminal_once_at_quiescence", "put_quorum_sound", "quorum_clamp_rule", "settle_covers_timeouts",
             "executor_exactly_one_result", "executor_results_allowed", "every_query_terminates",
-            "manual_validation_never_stores", "inbound_answered_per_kind", "manual_update_never_adds"]
-CONSTS = ["KAD_READ_TIMEOUT_SECS", "KAD_WRITE_TIMEOUT_SECS"]
+            "manual_validation_never_stores", "inbound_answered_per_kind", "manual_update_never_adds",
+            "terminal_event_never_dropped", "try_send_drops_witness", "every_query_terminates_when_user_reads"]
+CONSTS = ["KAD_READ_TIMEOUT_SECS", "KAD_WRITE_TIMEOUT_SECS", "KAD_EVENT_CHANNEL_SIZE"]
 _EXE = "src/protocol/libp2p/kademlia/executor.rs"
 CONST_TABLE = [
     ("KAD_READ_TIMEOUT_SECS", _EXE, r"const READ_TIMEOUT: Duration = Duration::from_secs\(([^)]+)\);", 15),
     ("KAD_WRITE_TIMEOUT_SECS", _EXE, r"const WRITE_TIMEOUT: Duration = Duration::from_secs\(([^)]+)\);", 15),
+    ("KAD_EVENT_CHANNEL_SIZE", "src/lib.rs", r"const DEFAULT_CHANNEL_SIZE: usize = (\d+)usize;", 4096),
 ]
 MANIFEST = {
     "text": "Lean 4 theorems about an executable model of the Kademlia coordinator (pending dials, pending substreams, "
@@ -448,6 +450,9 @@ def gen_cases(rng, tier):
     for _ in range(n_serve):
         yield serve_case(rng)
     yield from fixed_new_cases()
+    yield from channel_cases(rng)
+    from . import kadwire
+    yield from kadwire.gen_wire_cases(rng, "quick" if tier == "quick" else "search")
     g = Gen(rng)
     for _ in range(n_coop):
         g.key = 0
@@ -463,6 +468,42 @@ def gen_cases(rng, tier):
     yield ["x sub 1 frob", "x sub 1 send w@0", "x sub 1 send", "x tick 999", "x sub 2 read msg@x", "net g g"]
     yield ["net g g valid=maybe", "net g g default=1 repl=2", "net g g", "inbound 1 frob", "inbound 9 garbage",
            "store_record x", "stop_providing", "find_node_b 1", "start_providing_a 1 one", "settle"]
+
+
+def channel_cases(rng):
+    """The user does not read the handle while more events are produced than the event channel holds
+    (DEFAULT_CHANNEL_SIZE = 4096): every `event_tx.send(..).await` of the coordinator suspends instead of dropping -
+    terminal failures, terminal successes, partial results, IncomingRecord / IncomingProvider, RoutingTableUpdate."""
+    cap = 4096
+    over = lambda: cap + rng.choice([1, 4, 57, 200])
+    # failures / successes of every operation kind on an empty routing table, back to back
+    starts = ["find_node 3", "get_record 9 one", "get_record 9 all", "put_record 2 one", "put_record 2 all",
+              "start_providing 4 one", "get_providers 6", "put_record_to 7 - one", "put_record_to 7 1,2 all"]
+    yield ["net g g", f"burst {over()} find_node {rng.randrange(1, 9)}", "settle"]
+    for s in rng.sample(starts[1:], 3):
+        yield ["net g g", f"burst {over()} {s}", "settle"]
+    # two events per operation (partial result + success straight from the command arm), odd / even overflow
+    yield ["net g g", "store_record 1", f"burst {cap // 2 + rng.choice([1, 2, 30])} get_record 1 one", "settle"]
+    # a mix within one case, the channel overflowing in the second burst; user reads in between or not
+    yield ["net g g", "store_record 1", "hold", f"burst {rng.randrange(1000, 2000)} get_record 1 one",
+           f"burst {rng.randrange(1000, 2040)} find_node 2", f"burst {rng.randrange(30, 300)} get_record 2 all",
+           "release", "find_node 1", "settle"]
+    # the channel exactly full (or one short) when a single event of each remaining kind is due
+    fill = lambda: f"burst {cap // 2 - rng.choice([0, 0, 1])} get_record 1 one"
+    yield ["net g g g", "add_known_peer 1", "established 1", "find_node 5", "subopen #0", "store_record 1", "hold", fill(),
+           f"release reply #0 nodes={rng.choice(['2,3', '2', '-'])}", "settle"]
+    yield ["net g g g", "add_known_peer 1", "established 1", "get_record 8 all", "subopen #0", "store_record 1", "hold", fill(),
+           "release reply #0 nodes=2 value", "settle"]
+    yield ["net g g", "established 1", "store_record 1", "hold", fill(), f"release inbound 1 put_value {rng.randrange(2, 9)}",
+           "settle"]
+    yield ["net g g", "established 1", "store_record 1", "hold", fill(), "find_node 3",
+           f"release inbound 1 add_provider {rng.randrange(2, 9)}", "settle"]
+    yield ["net g g", "add_known_peer 1", "established 1", "store_record 1", "put_record_to 3 1 one", "subopen #0", "hold", fill(),
+           "release reply #0", "settle"]
+    # more inbound records than the channel holds
+    yield ["net g g", "established 1", f"burst {over()} inbound 1 put_value 3", "settle"]
+    yield ["net g g", "burst 0 find_node 1", "burst 7000 find_node 1", "burst 3 frob", "release", "hold", "hold", "burst 3",
+           "release frob", "release", "settle"]
 
 
 def fixed_new_cases():
@@ -642,12 +683,29 @@ def oracle(case, out):
         if op.startswith("s2 "):
             oracle_s2(op, o, i, v)
             continue
+        if op.startswith("t "):
+            continue          # routing-table wiring histories: judged by C14 (checks/kadwire.py); here only the tie
         head, parts = split_parts(op, o)
         for sub, obs in parts:
             t = sub.split()
+            if t and t[0] == "release":
+                t = t[1:] or ["events"]
             if t and t[0].endswith("_a"):
                 t[0] = t[0][:-2]
             toks = tokens_of(obs)
+            if len(t) > 2 and t[0] == "burst":
+                # `burst n <op>`: the head is `q=a..b` / `in=a..b` / `ok*n`
+                t = t[2:]
+                m = re.fullmatch(r"(q|in)=(\d+)\.\.(\d+)", toks[0]) if toks else None
+                heads = [f"{m.group(1)}={k}" for k in range(int(m.group(2)), int(m.group(3)) + 1)] if m else \
+                    (toks[0].split(",") if toks and "*" not in toks[0] else [])
+                for h in heads:
+                    sv.op(t, [h], i)
+                    if h.startswith("q=") and h[2:].isdigit() and t[0] in TERMINALS:
+                        started[int(h[2:])] = t[0]
+                        if t[0] in ("put_record", "put_record_to", "start_providing") and len(t) > 1:
+                            put_key[int(h[2:])] = t[1]
+                t, toks = ["events"], ["-"] + toks[1:]
             sv.op(t, toks, i)
             if toks and toks[0].startswith("q=") and t and t[0] in TERMINALS:
                 q = int(toks[0][2:])
